@@ -257,7 +257,7 @@ def plan(prop, tier):
                  "consts": {"Depth": 14, "RegIds": "{1, 2, 3}", "ItIds": "{1, 2, 3}", "PoolName": '"wide"'}},
                 {"type": "apisim", "tag": "simzl", "num": 300 if q else 3000, "depth": 9,
                  "consts": {"Depth": 9, "RegIds": "{1}", "ItIds": "{1, 2}", "PoolName": '"zl"'}},
-                T("threads", "general", 800, 6000, mode="threads")] + ([] if q else [SUITE])
+                T("threads", "general", 800, 2500, mode="threads")] + ([] if q else [SUITE])
     if prop == "C19":
         return [dict(G("bref", Leaves="<-LvBref", Quants="<-QSmall", MaxSize=5, MaxLen=4 if q else 5,
                        FlagSets="<-OnlyNoFlags")),
